@@ -135,6 +135,7 @@ const TARGETS: &[Target] = &[
     Target { file: "ssz/src/encode.rs", imp: "trait Encode", tr: "", name: "ssz_fixed_len", coq: "encode_default_ssz_fixed_len" },
     Target { file: "ssz/src/encode.rs", imp: "trait Encode", tr: "", name: "as_ssz_bytes", coq: "encode_default_as_ssz_bytes" },
     Target { file: "ssz/src/lib.rs", imp: "", tr: "", name: "ssz_encode", coq: "ssz_encode" },
+    Target { file: "ssz_derive/src/lib.rs", imp: "", tr: "", name: "compute_union_selectors", coq: "compute_union_selectors" },
     Target { file: "ssz/src/decode.rs", imp: "SszDecoderBuilder", tr: "", name: "new", coq: "builder_new" },
     Target { file: "ssz/src/decode.rs", imp: "SszDecoderBuilder", tr: "", name: "register_type", coq: "builder_register_type" },
     Target { file: "ssz/src/decode.rs", imp: "SszDecoderBuilder", tr: "", name: "register_anonymous_variable_length_item", coq: "builder_register_anonymous" },
@@ -1751,7 +1752,14 @@ impl Cx {
         }
         // `xs.chunks(n).map(f).collect()` into a `Result<Vec<_>, _>`: stops at the first error
         if name == "collect" {
-            let (r, k) = self.expr(&m.receiver)?;
+            let elem_u8 = m.turbofish.as_ref().map(|tf| tf.args.to_token_stream().to_string().replace(' ', "") == "Vec<u8>").unwrap_or(false);
+            let saved_exp = self.expected_ty.clone();
+            if elem_u8 {
+                self.expected_ty = Some("u8".to_string());
+            }
+            let rk = self.expr(&m.receiver);
+            self.expected_ty = saved_exp;
+            let (r, k) = rk?;
             if self.cur_imp == "BTreeMap<K,V>" && k == Comp {
                 if !self.dict_used.contains(&("K".to_string(), "cmp".to_string())) {
                     self.dict_used.push(("K".to_string(), "cmp".to_string()));
@@ -1824,6 +1832,8 @@ impl Cx {
                     }
                 }
             }
+            // `i.try_into()` where the target is `u8` (the element type of the `Vec<u8>` being collected)
+            "try_into" if self.expected_ty.as_deref() == Some("u8") => (format!("(u8_try_from {})", r), Pure),
             "filter" => {
                 let f = self.closure1(&m.args[0], Pure)?;
                 (format!("(opt_filter {} {})", f, r), Pure)
@@ -2227,7 +2237,13 @@ impl Cx {
             }
             Stmt::Macro(m) => {
                 let name = path_last(&m.mac.path);
-                if name == "debug_assert" || name == "debug_assert_eq" {
+                if name == "assert" {
+                    // `assert!(c, "..", ..)`: a panic when c is false (the message arguments are not evaluated otherwise)
+                    let args = m.mac.parse_body_with(syn::punctuated::Punctuated::<Expr, syn::Token![,]>::parse_terminated).map_err(|e| format!("assert! arguments: {}", e))?;
+                    let c = self.val(args.first().ok_or("assert! without a condition")?)?;
+                    let rest_t = self.block(rest, k)?;
+                    format!("if (negb {}) then\nPanic\nelse\n{}", paren(&c), rest_t)
+                } else if name == "debug_assert" || name == "debug_assert_eq" {
                     self.notes.push(format!("{}!({}) ignored (release semantics)", name, m.mac.tokens));
                     self.block(rest, k)?
                 } else {
